@@ -431,9 +431,14 @@ class Parser:
     def raise_indentation_error(self, msg: str) -> None:
         """Raise an indentation error."""
         last_token = self._tokenizer.diagnose()
-        args = (self.filename, last_token.start[0], last_token.start[1] + 1, last_token.line)
+        args = (self.filename, last_token.start[0], last_token.start[1] + 1, self._token_line(last_token))
         args += (last_token.end[0], last_token.end[1] + 1)  # type: ignore
         raise IndentationError(msg, args)
+
+    def _token_line(self, tok: TokenInfo) -> str:
+        """The source line a token lies on; the tokens made up at the end of the input carry none, although they can lie
+        on a line that exists (a last line of blanks without a newline)."""
+        return tok.line or self._tokenizer.get_lines([tok.start[0]])[0]
 
     def get_expr_name(self, node: Any) -> str:
         """Get a descriptive name for an expression."""
@@ -944,7 +949,7 @@ class Parser:
             end = end or tok.end
 
         if line_from_token:
-            line = tok.line
+            line = self._token_line(tok)
         else:
             # End is used only to get the proper text
             line = "\\n".join(self._tokenizer.get_lines(list(range(start[0], end[0] + 1))))
